@@ -41,7 +41,7 @@ MANIFEST_NOTE = 'Trusted: NumPy, engine/observe.py, models/formats.py. Depth and
 TECHNIQUE = 'explicit-state BFS over operation histories, two implementations in lock-step, replay on fresh objects'
 
 ROOT_FORMATS = ['bed3', 'bed6', 'bedgraph', 'narrowpeak', 'vcf', 'vcf_header', 'sam', 'sam_notags', 'fastq', 'fasta2', 'gff3',
-                'chromsizes', 'pairs', 'gfa']
+                'chromsizes', 'pairs', 'gfa', 'bam']
 ROOT_FILES = [(0, 1, 2), (1, 0), (2,)]
 MODES = ['whole', 'first_chunk', 'concat_chunks']
 
@@ -95,10 +95,12 @@ def split_header(fmt, data):
 
 
 def read_root(f, data, lazy, mode):
-    r = make_reader(data, f.buffer_type(), lazy)
+    r = make_reader(data, f.buffer_type(), lazy, gz=getattr(f, 'gzip_container', False))
     if mode == 'whole':
         return r.read()
     k = max(1, len(data) // 2)
+    if getattr(f, 'gzip_container', False):
+        k = max(k, 160)        # BAM: the chunk size must hold the header and the largest record (C16 precondition)
     if mode == 'first_chunk':
         return r.read_chunk(k)
     chunks = list(r.read_chunks(k))
@@ -184,7 +186,7 @@ def run_history(f, data, mode, hist, fields, kinds, model_rows):
         if vals['lazy'][0] != vals['eager'][0]:
             r = vals['lazy'] if vals['lazy'][0] == 'raises' else vals['eager']
             return {'status': 'disagree', 'where': 'observe:' + obs[0] + (':saved-register' if reg else ''), 'step': len(hist), 'op': obs,
-                    'lazy': _short(vals['lazy'][:2]), 'eager': _short(vals['eager'][:2]), 'tb': r[2], 'frame': r[3], 'model': model}
+                    'lazy': _short(vals['lazy'][:2]), 'eager': _short(vals['eager'][:2]), 'tb': r[2], 'frame': r[3], 'model': model, 'impls': impls}
         if vals['lazy'][0] == 'ok' and obs[0] == 'write' and vals['lazy'][1] != vals['eager'][1]:
             hl, bl = split_header(f.name, vals['lazy'][1])
             he, be = split_header(f.name, vals['eager'][1])
@@ -195,10 +197,10 @@ def run_history(f, data, mode, hist, fields, kinds, model_rows):
             else:
                 where = 'observe:write'
             return {'status': 'disagree', 'where': where + (':saved-register' if reg else ''), 'step': len(hist), 'op': obs,
-                    'lazy': _short(vals['lazy'][1]), 'eager': _short(vals['eager'][1]), 'tb': None, 'frame': None, 'model': model}
+                    'lazy': _short(vals['lazy'][1]), 'eager': _short(vals['eager'][1]), 'tb': None, 'frame': None, 'model': model, 'impls': impls}
         if vals['lazy'][0] == 'ok' and vals['lazy'][1] != vals['eager'][1]:
             return {'status': 'disagree', 'where': 'observe:' + obs[0] + (':saved-register' if reg else ''), 'step': len(hist), 'op': obs,
-                    'lazy': _short(vals['lazy'][1]), 'eager': _short(vals['eager'][1]), 'tb': None, 'frame': None, 'model': model}
+                    'lazy': _short(vals['lazy'][1]), 'eager': _short(vals['eager'][1]), 'tb': None, 'frame': None, 'model': model, 'impls': impls}
         if obs[0] == 'rows' and vals['eager'][0] == 'ok':
             common = vals['eager'][1] != model.values('u' if reg else 't')
         else:
@@ -247,7 +249,10 @@ def explore(res, fmt, variants, mode, depth, deadline):
                          'has_concat': bool({'cat_tu', 'cat_ut'} & set(opkinds)), 'frame': r.get('frame')}
                 res.fail('lazy-eager-disagree', case, feats, expected={'eager': r['eager']}, observed={'lazy': r['lazy']}, tb=r.get('tb'))
                 res.outcome('disagree:' + r['where'])
-                continue
+                if not (r['where'].startswith('observe') and 'impls' in r):
+                    continue
+                # a disagreement in one OBSERVATION does not invalidate the state: keep exploring from it (otherwise a
+                # known finding at a root would hide everything reachable from that root)
             if r['status'] == 'both-raise':
                 res.raising += 1
                 res.outcome('both-raise:' + r['op'][0])
